@@ -140,3 +140,227 @@ def no_falloff(ctx, res):
                 else:
                     res.oblige(True, key, "", "")
     res.floor(55)
+
+
+# ---------------------------------------------------------------------------
+# C01.string-dispatch: the validator String selects enforces every option
+
+def _bool_run(stmts, val, target):
+    """Run a list of If/Assign statements under a valuation of the atomic
+    tests (normalised text -> bool); returns the constant finally assigned to
+    ``target`` (dotted text).  Unknown atoms fail closed."""
+    result = [None]
+
+    def ev(t):
+        if isinstance(t, ast.BoolOp):
+            vals = [ev(v) for v in t.values]
+            return all(vals) if isinstance(t.op, ast.And) else any(vals)
+        if isinstance(t, ast.UnaryOp) and isinstance(t.op, ast.Not):
+            return not ev(t.operand)
+        k = norm(t)
+        if k in val:
+            return val[k]
+        # negated spelling of a known atom
+        if isinstance(t, ast.Compare) and len(t.ops) == 1:
+            flip = {ast.Eq: ast.NotEq, ast.NotEq: ast.Eq}
+            if type(t.ops[0]) in flip:
+                t2 = ast.Compare(t.left, [flip[type(t.ops[0])]()],
+                                 t.comparators)
+                k2 = norm(t2)
+                if k2 in val:
+                    return not val[k2]
+        raise AnalysisError(f"condition `{k}` is outside the modelled options")
+
+    def run(body):
+        for s in body:
+            if isinstance(s, ast.If):
+                run(s.body if ev(s.test) else s.orelse)
+            elif isinstance(s, ast.Assign):
+                for t in s.targets:
+                    if norm(t) == target and isinstance(s.value, ast.Constant):
+                        result[0] = s.value.value
+            elif isinstance(s, ast.Expr):
+                continue
+            else:
+                raise AnalysisError(f"unsupported statement in option "
+                                    f"dispatch: {type(s).__name__}")
+    run(stmts)
+    return result[0]
+
+
+@rule("C01.string-dispatch", ["C01"],
+      "for every combination of String options the selected validate method "
+      "enforces each active constraint (minlen, maxlen, regex)")
+def string_dispatch(ctx, res):
+    import itertools
+    from .containers import FactFlow, ReturnFlow
+    repo = get_pyrepo(ctx)
+    T = "traits/trait_types.py"
+    mod = repo.module(T)
+    cls = repo.cls(T, "String")
+    init = cls.methods.get("_init")
+    if init is None:
+        raise AnalysisError("String._init missing")
+    # constraints enforced by each validate_* method on its accepting paths
+    enforced = {}
+    for name, fn in cls.methods.items():
+        if not name.startswith("validate_"):
+            continue
+        fl = ReturnFlow(mod, fn, f"String.{name}")
+        fl.run(frozenset())
+        sets = []
+        for ret, facts, nid in fl.returns:
+            cs = set()
+            for f in facts:
+                if f[0] == "C" and f[1][0] != "NOTALL":
+                    a, op, b = f[1]
+                    if a.endswith(".minlen") and b.startswith("len("):
+                        cs.add("minlen")
+                    if a.startswith("len(") and b.endswith(".maxlen"):
+                        cs.add("maxlen")
+                if f[0] == "T" and ".match(" in f[1] and "is not None" in f[1]:
+                    cs.add("regex")
+                if f[0] == "F" and ".match(" in f[1] and "is None" in f[1] \
+                        and "is not" not in f[1]:
+                    cs.add("regex")
+            sets.append(cs)
+        enforced[name] = set.intersection(*sets) if sets else set()
+        res.instance(f"String.{name}", mod.loc(fn),
+                     enforces=sorted(enforced[name]))
+    atoms = {"regex": "self.regex != ''", "minlen": "self.minlen == 0",
+             "maxlen": "self.maxlen == sys.maxsize"}
+    body = [s for s in init.body]
+    n = 0
+    for rx, mn0, mxinf in itertools.product((False, True), repeat=3):
+        val = {atoms["regex"]: rx, atoms["minlen"]: mn0, atoms["maxlen"]: mxinf}
+        sel = _bool_run(body, val, "self._validate")
+        n += 1
+        active = set()
+        if rx:
+            active.add("regex")
+        if not mn0:
+            active.add("minlen")
+        if not mxinf:
+            active.add("maxlen")
+        key = (f"String(regex={'set' if rx else 'unset'}, "
+               f"minlen={'0' if mn0 else '>0'}, "
+               f"maxlen={'default' if mxinf else 'set'})")
+        if sel not in enforced:
+            res.violation(f"String._init:{key}:selected", mod.loc(init),
+                          f"{key} selects validator {sel!r}, which does not "
+                          f"exist")
+            continue
+        missing = active - enforced[sel]
+        res.oblige(not missing, f"String._init:{key}", mod.loc(init),
+                   f"{key} selects {sel}, which does not enforce "
+                   f"{sorted(missing)}: values outside the declared "
+                   f"length/pattern would be stored")
+    res.instance("String._init", mod.loc(init), option_combinations=n)
+    # validate() dispatches on the selected name
+    v = cls.methods.get("validate")
+    res.oblige(v is not None and "getattr(self, self._validate)" in norm(v),
+               "String.validate:dispatch", mod.loc(v or init),
+               "String.validate no longer dispatches to the selected method")
+    res.floor(5)
+
+
+# ---------------------------------------------------------------------------
+# C01.converted-returned
+
+@rule("C01.converted-returned", ["C01"],
+      "a validate method that obtains a converted value from its parent "
+      "class returns that value (not the raw argument) when it accepts")
+def converted_returned(ctx, res):
+    repo = get_pyrepo(ctx)
+    n = 0
+    for rel in FILES:
+        mod = repo.module(rel)
+        for ci in mod.classes.values():
+            for name, fn in ci.methods.items():
+                if not VALIDATE_RE.match(name) or len(fn.args.args) < 4:
+                    continue
+                valp = fn.args.args[3].arg
+                conv = [a for a in ast.walk(fn) if isinstance(a, ast.Assign)
+                        and len(a.targets) == 1
+                        and isinstance(a.targets[0], ast.Name)
+                        and isinstance(a.value, ast.Call)
+                        and norm(a.value.func) == "super().validate"]
+                if not conv:
+                    continue
+                n += 1
+                key = f"{ci.name}.{name}"
+                cvars = {a.targets[0].id for a in conv}
+                res.instance(key, mod.loc(fn), converted=sorted(cvars))
+                # after the conversion, no return of the raw parameter
+                first = min(a.lineno for a in conv)
+                for r in ast.walk(fn):
+                    if isinstance(r, ast.Return) and r.lineno > first \
+                            and r.value is not None:
+                        names = {x.id for x in ast.walk(r.value)
+                                 if isinstance(x, ast.Name)}
+                        raw = valp in names and valp not in cvars \
+                            and not (names & cvars)
+                        res.oblige(not raw, f"{key}:returns-raw",
+                                   mod.loc(r),
+                                   f"{key} returns `{norm(r.value)}` although "
+                                   f"the parent's validate() already produced "
+                                   f"the converted value "
+                                   f"`{sorted(cvars)[0]}`: the unconverted "
+                                   f"input would be stored")
+    res.floor(3)
+
+
+# ---------------------------------------------------------------------------
+# C03.same-object: the fast descriptor and the Python validator consult the
+# same collection object
+
+@rule("C03.same-object", ["C03"],
+      "the collection placed in a fast-validation descriptor is the very "
+      "object the Python validate method consults")
+def same_object(ctx, res):
+    repo = get_pyrepo(ctx)
+    T = "traits/trait_types.py"
+    mod = repo.module(T)
+    specs = [("Map", "map", "Map"), ("BaseEnum", "values", "Enum"),
+             ("PrefixMap", "map", None)]
+    n = 0
+    for cname, attr, fast_cls in specs:
+        if cname not in mod.classes:
+            continue
+        cls = mod.classes[cname]
+        init = cls.methods.get("__init__")
+        val = cls.methods.get("validate")
+        if init is None or val is None:
+            continue
+        # what validate consults
+        uses = {norm(x) for x in ast.walk(val) if isinstance(x, ast.Attribute)
+                and norm(x) == f"self.{attr}"}
+        if not uses:
+            continue
+        stores = [a for a in ast.walk(init) if isinstance(a, ast.Assign)
+                  and any(norm(t) == f"self.{attr}" for t in a.targets)]
+        desc = []
+        for c in ast.walk(init):
+            if isinstance(c, ast.Call) and norm(c.func) in (
+                    "self.init_fast_validate",):
+                desc.extend(c.args[1:])
+            if isinstance(c, ast.Assign) and any(
+                    norm(t) == "self.fast_validate" for t in c.targets) \
+                    and isinstance(c.value, ast.Tuple):
+                desc.extend(c.value.elts[1:])
+        if not desc or not stores:
+            continue
+        n += 1
+        key = f"{cname}.__init__:{attr}"
+        res.instance(key, mod.loc(init),
+                     descriptor=[norm(d) for d in desc],
+                     stored=[norm(s.value) for s in stores])
+        stored_exprs = {norm(s.value) for s in stores} | {f"self.{attr}"}
+        ok = any(norm(d) in stored_exprs for d in desc)
+        res.oblige(ok, key, mod.loc(init),
+                   f"{cname}: validate() consults self.{attr} "
+                   f"(= {sorted(stored_exprs - {'self.' + attr})}) but the "
+                   f"fast-validation descriptor is built from "
+                   f"{[norm(d) for d in desc]}: the compiled and the Python "
+                   f"validator can see different collections")
+    res.floor(2)
